@@ -486,6 +486,136 @@ class Sweep(object):
         for klass, bad in bads:
             self.must_raise("isotope()", klass, "T.isotope(bad)", dict(ev, bad=bad), dict(Z=Z))
 
+        # last (it may break the element): the caller mutates the containers it was handed
+        self.container_mutations(Z, sym, ev, it, it_numbers, ions)
+
+    # -- containers handed to the caller (lists of isotope numbers, charge tuples) are the caller's own
+    def container_mutations(self, Z, sym, ev, it, it_numbers, ions):
+        """Every route that hands out a container x every in-place mutation its type allows; afterwards
+        iteration, the isotopes list, el[A], 'A-Sym' lookups, ions and invalid neighbours are as before."""
+        acc, ns = self.acc, self.ns
+        try:
+            ion_objs = [(q, _ev("T[Z].ion[q]", dict(ns, Z=Z, q=q))) for q in ions]
+        except Exception:
+            return          # reported by check_atom
+        bogus_A = max(it_numbers + [0]) + 7
+        bogus_q = max(tuple(ions) + (0,)) + 7
+        routes = [("el.isotopes", "T[Z].isotopes", "isotopes", bogus_A), ("el.ions", "T[Z].ions", "ions", bogus_q),
+                  ("symbol().isotopes", "T.symbol(sym).isotopes", "isotopes", bogus_A)]
+        if it_numbers:
+            ns.update(A=it_numbers[0])
+            routes += [("isotope.isotopes", "T[Z][A].isotopes", "isotopes", bogus_A),
+                       ("isotope.ions", "T[Z][A].ions", "ions", bogus_q)]
+        if ions:
+            ns.update(q=ions[0])
+            routes += [("ion.isotopes", "T[Z].ion[q].isotopes", "isotopes", bogus_A),
+                       ("ion.ions", "T[Z].ion[q].ions", "ions", bogus_q)]
+        vars_ = dict(ev, BOGUS=0)
+        if it_numbers:
+            vars_["A"] = it_numbers[0]
+        if ions:
+            vars_["q"] = ions[0]
+
+        def state_ok():
+            """None, or (what, expected, observed)"""
+            T = ns["T"]
+            el = T[Z]
+            n = 0
+            try:
+                now = list(el)
+                n += 1
+                if len(now) != len(it) or any(a is not b for a, b in zip(now, it)):
+                    return n, ("iteration", it_numbers, [getattr(i, "isotope", i) for i in now])
+                lst = list(el.isotopes)
+                n += 1
+                if lst != it_numbers:
+                    return n, ("isotopes-list", it_numbers, lst)
+                for A, iso in zip(it_numbers, it):
+                    n += 2
+                    if el[A] is not iso:
+                        return n, ("el[A]", repr(iso), repr(el[A]))
+                    key = "%d-%s" % (A, sym)
+                    try:
+                        got = T.isotope(key)
+                    except Exception as e:
+                        got = _exc(e)
+                    if got is not iso:
+                        return n, ("isotope('A-Sym')", "%r for %r" % (iso, key), repr(got))
+                for bad, look in (("%d-%s" % (bogus_A, sym), T.isotope), (bogus_A, el.__getitem__),
+                                  (bogus_q, el.ion.__getitem__)):
+                    n += 1
+                    try:
+                        got = look(bad)
+                    except Exception:
+                        continue
+                    return n, ("invalid-key-accepted", "an exception for %r" % (bad,), repr(got))
+                n += 1
+                if tuple(el.ions) != tuple(ions):
+                    return n, ("ions", tuple(ions), tuple(el.ions))
+                for q, obj in ion_objs:
+                    n += 1
+                    if el.ion[q] is not obj:
+                        return n, ("ion[q]", repr(obj), repr(el.ion[q]))
+            except Exception as e:
+                return n, ("raises", "the lookups of before", _exc(e))
+            return n, None
+
+        for label, expr, attr, bogus in routes:
+            ns["BOGUS"] = bogus
+            try:
+                c0 = _ev(expr, ns)
+            except Exception as e:
+                self.viol("route-raises:container:%s" % attr, self.case(kind="container", Z=Z, route=label),
+                          "a container", _exc(e), vars_, ["C = %s" % expr])
+                return
+            if isinstance(c0, list):
+                ops = [("append-bogus", "C.append(BOGUS)"), ("insert-bogus", "C.insert(0, BOGUS)")]
+                if c0:
+                    ops = [("reverse", "C.reverse()"), ("sort-descending", "C.sort(reverse=True)"),
+                           ("pop-first", "C.pop(0)"), ("pop-last", "C.pop()"), ("overwrite-first", "C[0] = BOGUS"),
+                           ("clear", "del C[:]")] + ops
+                tname = "list"
+            elif isinstance(c0, dict):
+                ops = [("add-bogus", "C[BOGUS] = None")] + ([("pop-item", "C.popitem()"), ("clear", "C.clear()")] if c0 else [])
+                tname = "dict"
+            elif isinstance(c0, (set, bytearray)):
+                ops = [("add-bogus", "C.add(BOGUS)")] + ([("pop", "C.pop()"), ("clear", "C.clear()")] if c0 else [])
+                tname = "set"
+            elif hasattr(c0, "__next__"):
+                ops = [("consume", "list(C)")]
+                tname = "iterator"
+            else:
+                acc.states += 1
+                acc.outcome("container:%s:%s:immutable" % (attr, type(c0).__name__))
+                continue
+            for op, code in ops:
+                acc.states += 1
+                acc.nontrivial += 1
+                body = ["el = T[Z]", "isos = list(el); numbers = list(el.isotopes); charges = tuple(el.ions)",
+                        "BOGUS = %r" % bogus, "C = %s      # the caller's container" % expr, code,
+                        "print([i.isotope for i in el], el.isotopes, el.ions)",
+                        "assert all(a is b for a, b in zip(list(el), isos)) and len(list(el)) == len(isos)",
+                        "assert list(el.isotopes) == numbers and tuple(el.ions) == charges",
+                        "for i in isos: assert T.isotope('%d-%s' % (i.isotope, sym)) is i and el[i.isotope] is i"]
+                try:
+                    ns["C"] = _ev(expr, ns)
+                    _ex(code, ns)
+                except Exception as e:
+                    raise MachineryError("C08 container mutation %s on %s failed: %r" % (op, label, e))
+                finally:
+                    ns.pop("C", None)
+                n, bad = state_ok()
+                acc.transitions += n + 2
+                if bad is None:
+                    acc.outcome("container:%s:%s:%s:table-unaffected" % (attr, tname, op))
+                    continue
+                acc.outcome("container:%s:%s:VIOLATION" % (attr, tname))
+                self.viol("returned-container-aliases-table-state:%s" % attr,
+                          self.case(kind="container", Z=Z, route=label, mutation=op, broken=bad[0]),
+                          "%s as before the caller changed its own %s: %s" % (bad[0], tname, bad[1]), str(bad[2])[:300],
+                          vars_, body)
+                return          # the element is broken now: nothing is explored beyond
+
     def count_invalid(self, route, klass, e):
         acc = self.acc
         acc.states += 1
